@@ -513,6 +513,13 @@ class C08(ClientProp):
     def owns(self, clause):
         return clause.startswith("C08:") or clause == "C03:session-of-this-login"
 
+    def mc_runs(self, ctx):
+        return list(MODEL_RUNS) + [{"module": "Switcher", "cfg": "Switcher.cfg"}]
+
+    def replay_phase(self, ctx):
+        # end to end: operations change the simulated device, state queries on the same connection must report the device model's state
+        return e2e_phase(ctx, lambda c: c.startswith("C08:"))
+
     assumptions = ClientProp.base_assumptions + [
         "amps: either neighbouring tenth is accepted at an exact tie of watts/220",
         "thermostat replies with unknown mode / fan codes or a non-printable remote id are 'not well-formed' here and only "
